@@ -675,3 +675,42 @@ Fixpoint encode_o (v : otv) : cv :=
                | (k, x) :: r => if o_omitted x then go r else (k, encode_o x) :: go r
                end) fs)
   end.
+
+(* =====================================================================================
+   Part 8 — instances: configunmarshaler.Configs.Unmarshal decodes a whole section
+   (receivers:, exporters:, ...).  For every key `type[/name]` of the section it takes the
+   factory of the type, creates the factory defaults and decodes THAT entry's own body
+   (conf.Sub(id.String())) into them.  [sec] is the section as written, [d] the defaults of
+   the component type (all instances here are of one type, [name] its schema entry). *)
+Definition decode_section (name : string) (d : tv) (sec : list (string * cv)) : list (string * tv) :=
+  map (fun e => (fst e, decode_model name d (snd e))) sec.
+
+(* =====================================================================================
+   Part 9 — handing the effective configuration to the ConfigWatcher extensions
+   (service/extensions/extensions.go NotifyConfig): for each extension in start order that
+   implements ConfigWatcher a FRESH clone confmap.NewFromStringMap(conf.ToStringMap()) is
+   made and handed over; the extension owns it and may change it (Merge).  An extension is
+   [None] (no ConfigWatcher) or [Some muts], the merges it performs on what it was handed. *)
+Fixpoint cv_set (p : path) (x : cv) (c : cv) : cv :=
+  match p with
+  | [] => x
+  | k :: r =>
+      let kvs := match c with CMap kvs => kvs | _ => [] end in
+      let old := match lookup k kvs with Some o => o | None => CNull end in
+      CMap ((k, cv_set r x old) :: filter (fun e => negb (String.eqb (fst e) k)) kvs)
+  end.
+
+Definition apply_muts (muts : list (path * cv)) (c : cv) : cv :=
+  fold_left (fun acc m => cv_set (fst m) (snd m) acc) muts c.
+
+(* state: the collector's conf; output: what each watcher was handed (at the time of the call)
+   and what it holds after its own merges *)
+Fixpoint notify (conf : cv) (exts : list (option (list (path * cv)))) : list (cv * cv) * cv :=
+  match exts with
+  | [] => ([], conf)
+  | None :: r => notify conf r
+  | Some muts :: r =>
+      let clone := conf in                       (* a fresh deep copy: same value, no sharing *)
+      let '(rest, conf') := notify conf r in     (* the merges go to the clone, conf is untouched *)
+      ((clone, apply_muts muts clone) :: rest, conf')
+  end.
